@@ -48,6 +48,9 @@ pub(crate) struct TokenStream<'a> {
     pub(crate) idx: usize,
     /// Comments after the last token in the file.
     pub(crate) trailing_comments: Vec<(Position, &'a str)>,
+    /// Has the parser already stepped backwards after running out of
+    /// tokens? See `parse_symbol`.
+    pub(crate) rewound_at_eof: bool,
 }
 
 impl<'a> TokenStream<'a> {
@@ -388,6 +391,7 @@ pub(crate) fn lex_between<'a>(
             tokens,
             idx: 0,
             trailing_comments: preceding_comments,
+            rewound_at_eof: false,
         },
         errors,
     )
